@@ -215,7 +215,7 @@ class PropertyRun:
             for seed in (7, 23):
                 if o.result in ("unsat", "sat"):
                     return
-                r = smt.solve(o.smt2, self.timeout * 6, seed=seed)
+                r = smt.solve(o.smt2, self.timeout * 3, seed=seed)
                 o.result, o.backend, o.time, o.raw = r["verdict"], r["backend"], o.time + r["time"], r["raw"]
                 o.tried = o.tried + [("seed%d:%s" % (seed, b), v, t) for b, v, t in r["tried"]]
 
@@ -224,7 +224,8 @@ class PropertyRun:
                 list(ex.map(relaxed, pend))
                 list(ex.map(retry, pend))
             still = [o for o in pend if o.result not in ("unsat", "sat")]
-            if still:
+            # many obligations still open = the code changed, not solver noise: the extra round is for the odd flaky one
+            if still and len(still) <= 6:
                 with ThreadPoolExecutor(max_workers=3) as ex:
                     list(ex.map(last_resort, still))
         for name, os_ in self.groups().items():
